@@ -50,7 +50,8 @@ from vlib import core
 from models import c14_driver as M
 
 LEVEL = "fault_enumeration"
-BUDGET = {"quick": 300, "thorough": 1800}
+BUDGET = {"quick": 600, "thorough": 3000}       # global deadlines, not targets (quick: ~4 CPU-min, thorough: ~25 CPU-min)
+PART2_RESERVE = {"quick": 90, "thorough": 600}   # part 1 stops submitting work when less than this is left for part 2
 
 FAULTS = {"quick": ["exit1", "exit3", "segv", "kill", "noexec", "partial"],
           "thorough": ["exit1", "exit3", "segv", "kill", "noexec", "partial"]}
@@ -1335,7 +1336,8 @@ def _run_plain(argv, cwd, fin):
 def gcc_naming_oracle(cfg, specs):
     """gcc arbitrates the naming-family shapes with ONE input under -S / -c (writable directory): that is where the
     naming rule lives.  A shape with several inputs is covered by the verdicts on each of its inputs alone (what
-    happens when names coincide is not judged by name anyway).  Returns ({name class: deviations}, number of gcc runs)."""
+    happens when names coincide is not judged by name anyway).  Returns ({name class: deviations}, number of gcc runs,
+    number of gcc runs that disagree with the model)."""
     naming = [spec for spec in specs if len(spec) == 5 and any(k in ("paths", "oform") for k, _ in spec[4])]
     todo = [spec for spec in naming if spec[0] in ("S", "c") and spec[3] == "w" and len(spec[2]) == 1]
     nb = core.NPROC * 2
@@ -1345,6 +1347,7 @@ def gcc_naming_oracle(cfg, specs):
         for spec, devs in res:
             if devs:
                 bad[_nameclass(spec)] = devs
+    direct = len(bad)
     for spec in naming:
         if len(spec[2]) > 1:
             var = dict(spec[4])
@@ -1353,7 +1356,7 @@ def gcc_naming_oracle(cfg, specs):
                 single = (spec[0], spec[1], (k,), tuple(sorted(dict(var, paths=(var["paths"][i],)).items())))
                 if single in bad:
                     bad[_nameclass(spec)] = ["input %d alone: %s" % (i, "+".join(bad[single]))]
-    return bad, len(todo)
+    return bad, len(todo), direct
 
 
 def _nameclass(spec):
@@ -1398,17 +1401,17 @@ def run(ctx):
     specs, undefined = shape_specs(ctx.tier)
     # Output names: the model's documented names must be what the reference driver produces too, otherwise the
     # shape is not judged (two-oracle rule)
-    name_disagree, gcc_runs = gcc_naming_oracle(cfg, [sp for sp, _ in specs])
+    name_disagree, gcc_runs, gcc_disagree = gcc_naming_oracle(cfg, [sp for sp, _ in specs])
     nspecs = len(specs)
     specs = [(sp, f) for sp, f in specs if _nameclass(sp) not in name_disagree]
-    ctx.cover(gcc_naming_oracle_runs=gcc_runs, oracle_disagreements=len(name_disagree),
+    ctx.cover(gcc_naming_oracle_runs=gcc_runs, oracle_disagreements=gcc_disagree,
               oracle_disagreement_cases=sorted("chibicc %s: gcc %s" % (" ".join(M.Shape(k[0], k[1], k[2], "w", k[3]).argv()), "+".join(v))
-                                               for k, v in name_disagree.items()),
+                                               for k, v in name_disagree.items() if len(k[2]) == 1),
               shapes_not_judged_for_oracle_disagreement=nspecs - len(specs))
-    if gcc_runs and len(name_disagree) * 4 > gcc_runs:
+    if gcc_runs and gcc_disagree * 4 > gcc_runs:
         raise core.HarnessError("the naming model and gcc disagree on %d of %d commands, e.g. %s" % (
-            len(name_disagree), gcc_runs, sorted(name_disagree.items(), key=str)[:3]))
-    _debug(ctx, "gcc naming oracle: %d runs, %d disagreements" % (gcc_runs, len(name_disagree)))
+            gcc_disagree, gcc_runs, sorted(name_disagree.items(), key=str)[:3]))
+    _debug(ctx, "gcc naming oracle: %d runs, %d disagreements" % (gcc_runs, gcc_disagree))
     # expensive shapes (fault enumeration) first, round-robin over the batches
     specs.sort(key=lambda t: -len(t[1]))
     order = list(range(len(specs)))
@@ -1423,7 +1426,7 @@ def run(ctx):
     # batches are submitted in waves so the deadline can stop the enumeration between waves
     wave = core.NPROC * 2
     for w0 in range(0, len(batches), wave):
-        if ctx.out_of_time(reserve=BUDGET[ctx.tier] * 0.35):
+        if ctx.out_of_time(reserve=PART2_RESERVE[ctx.tier]):
             ctx.incomplete("part 1 stopped by the deadline after %d of %d shape batches" % (done_batches, len(batches)))
             break
         args = [(cfg, b, w0 + i) for i, b in enumerate(batches[w0:w0 + wave])]
@@ -1492,6 +1495,10 @@ def run(ctx):
             parts.append(k if k == "none" else "%s:%s" % (k, "*" if per[k] >= set(faults) else "+".join(sorted(per[k]))))
         return ",".join(parts)
 
+    if os.environ.get("C14_DUMP_VIOL"):
+        with open(os.environ["C14_DUMP_VIOL"], "w") as f:
+            for v in viol:
+                f.write(repr(v[:3]) + "\n")
     nconfirmed = 0
     groups = {}
     for spec, fault, dv, detail, via in viol:
@@ -1624,6 +1631,16 @@ def run(ctx):
                "the simultaneously waiting steps (steps are serialised); exec-not-found at a step that starts while "
                "an earlier step of the same kind is still waiting cannot be arranged and is counted as not reached")
     ctx.assume("a pre-existing output that is deleted (not rewritten) when its translation unit fails is accepted")
+    ctx.assume("default output names: last component of the input as written, extension replaced, in the current "
+               "directory ('-' gives '-.o' / '-.s'); a last component that is all extension ('.c') may give '.o' or '.c.o'; "
+               "a dependency file may be named after -o or after the input, with gcc's '<out>-<input>.d' / 'a-<input>.d' "
+               "forms accepted, in the cwd or next to the -o path.  Single-input -S/-c commands on which gcc creates "
+               "other files than the model allows are not judged (oracle_disagreement_cases)")
+    ctx.assume("one -o (under -E/-S/-c) or one default name for several translation units: the driver may refuse; if it "
+               "exits 0 with one -o every unit must be found in the output; with coinciding DEFAULT names any one of "
+               "the units may be in the file (gcc lets the last one win)")
+    ctx.assume("-x is given once, before all inputs, and all inputs of such a command are of one language (a later -x or "
+               "mixed languages would depend on whether -x is positional); -MD with standard input and -E -MD -o are not judged")
 
 
 def run_part2(ctx, cfg):
